@@ -208,6 +208,7 @@ func main() {
 	writeIfChanged(filepath.Join(outDir, "GoFuncs.v"), go2coq(pkgs))
 	writeIfChanged(filepath.Join(outDir, "LockFacts.v"), lockFacts(pkgs))
 	writeIfChanged(filepath.Join(outDir, "GoTracker.v"), go2heap(pkgs))
+	writeIfChanged(filepath.Join(outDir, "GoRegistry.v"), go2heapRegistry(pkgs))
 }
 
 func writeIfChanged(path, txt string) {
